@@ -104,7 +104,10 @@ def mixed_program(rng, u, depth=0, allow_pos=True, size=None, macros=None, comme
             if comments and rng.random() < 0.3:
                 items.append(pp.cmt(" after endif "))
         elif r < 0.95:
-            items += [pp.kept(rng.choice(["`celldefine", "`endcelldefine", "`default_nettype none", "`timescale 1ns/1ps", "`nounconnected_drive"])), pp.nl()]
+            # every directive that the preprocessor copies as a whole (each has its own arm in the event loop)
+            items += [pp.kept(rng.choice(["`celldefine", "`endcelldefine", "`default_nettype none", "`timescale 1ns/1ps", "`nounconnected_drive",
+                                          "`unconnected_drive pull1", "`unconnected_drive pull0", "`line 3 \"f.sv\" 0", "`pragma protect",
+                                          "`begin_keywords \"1800-2012\"", "`end_keywords", "`resetall", "`default_nettype wire"])), pp.nl()]
         else:
             items.append(pp.nl())
     return items
